@@ -77,8 +77,7 @@ META = {
                 "Hamiltonian builders (SpinHam1D, MPO_ham_*) with symbolic coefficients: spin_ham_mpo_tensor allocates a complex table, so "
                 "spin_ham_builder / hamiltonian_generators compare numeric tables with dyadic coefficients by evaluation (fixed table + random "
                 "multiples of 1/16), S = 1/2 and 1, L = 3-5; MPO_ham_mbl's random fields are pinned by their support, bound and the dense "
-                "builder quimb.ham_mbl at the same seed, not by a distribution test; MPO_ham_bilinear_biquadratic only against the term list it "
-                "hands to SpinHam1D (its biquadratic term is (S(S+1))^2 * identity, not (S_i.S_j)^2 of the cited model: reported); "
+                "builder quimb.ham_mbl at the same seed, not by a distribution test; MPO_ham_bilinear_biquadratic against the cited model cos(theta) S.S + sin(theta) (S.S)^2; "
                 "build_local_ham with plain ndarray two-site operators (rejected: TypeError); NNI / LocalHam1D evolution (C18)",
                 "jax / torch / block-sparse backends",
                 "L = 1 chains and periodic chains of length 2 (double bond)",
@@ -1533,16 +1532,15 @@ def hamiltonian_generators(mk, name, L, cyclic):
                 hr([], [(1.0, "X", "X"), (1.0, "Y", "Y"), (delta, "Z", "Z")]))
         elif name == "bilinear_biquadratic":
             theta = coef()
-            # the generator's term list: cos(theta) S_i.S_{i+1} + sin(theta) sum_{a,b} (S^a S^a)_i (S^b S^b)_{i+1}.
-            # NOTE (reported, not part of the claim): the chain of the cited paper has sin(theta) (S_i.S_{i+1})^2 =
-            # sum_{a,b} (S^a S^b)_i (S^a S^b)_{i+1}; what is built is sin(theta) (S(S+1))^2 * identity per bond.  The docstring
-            # states no formula, so only "the MPO equals the sum of the terms handed to SpinHam1D" is checked here.
-            sq = {a: _SPIN[D][a] @ _SPIN[D][a] for a in "XYZ"}
-            two = [(np.cos(theta), a, a) for a in "XYZ"] + [(np.sin(theta), sq[a], sq[b]) for a in "XYZ" for b in "XYZ"]
+            # the chain of the cited paper (PhysRevB.93.184428): cos(theta) S_i.S_{i+1} + sin(theta) (S_i.S_{i+1})^2, with
+            # (S_i.S_j)^2 = sum_{a,b} (S^a S^b)_i (S^a S^b)_j.  (Until the third round the generator built
+            # sum_{a,b} (S^a S^a)_i (S^b S^b)_j = (S(S+1))^2 * identity instead: genuine defect, fixed.)
+            two = [(np.cos(theta), a, a) for a in "XYZ"] + \
+                  [(np.sin(theta), _SPIN[D][a] @ _SPIN[D][b], _SPIN[D][a] @ _SPIN[D][b]) for a in "XYZ" for b in "XYZ"]
             for comp in (True, False):
                 A = tb.MPO_ham_bilinear_biquadratic(L, theta, S=S, cyclic=cyclic, compress=comp)
                 mk.same(f"MPO_ham_bilinear_biquadratic(theta, S={S}, compress={comp}): MPO of length L", (type(A) is qtn.MatrixProductOperator, A.L), (True, L))
-                num_eq(mk, f"MPO_ham_bilinear_biquadratic(theta, S={S}, compress={comp}): dense value == sum of its terms",
+                num_eq(mk, f"MPO_ham_bilinear_biquadratic(theta, S={S}, compress={comp}): dense value == cos(theta) S.S + sin(theta) (S.S)^2 summed over the bonds",
                        _einsum_dense_op(A, L), hr([], two), tol=1e-9)
         elif name == "mbl":
             dh, j, jz = abs(coef()) + 0.5, coef(), coef()
